@@ -17,7 +17,15 @@ PROP = dict(
                "to what the receiving connection actually got.",
     level_note="Trusted: Coq kernel, extraction, OCaml driver, Go broker harness; housekeeping is driven with explicit "
                "times (verif-tag tick), publish and write times are the wall clock read back from the broker's stored "
-               "copy / bracketed by the harness (a delivery is accepted for either second of its bracket).  Modelled "
+               "copy / bracketed by the harness (the delivered interval must lie between WritePacket's value for the "
+               "first and for the last second of the bracket - it does not grow with time).  Wall-clock dependence of the "
+               "held-back scenario: the message M0 that occupies the send quota has to be published in the same second "
+               "as the message M under observation; otherwise, with a server maximum as effective interval, a "
+               "housekeeping run exactly at M's expiry time removes M0 (one second older) but not M, the PUBACK for M0 "
+               "then frees no quota (expired in-flight messages do not give their send quota back - flow control, C11) "
+               "and M's delivery is never triggered although M is alive: the run says nothing about M, shows up as a "
+               "correspondence mismatch (seen 3 times in 144 loaded runs), and is therefore detected (Created of M0 vs "
+               "M read from the broker) and repeated.  Modelled "
                "not verified: uint32 conversion of the interval (no overflow below 2^32 s), time.Now.  Not covered: "
                "the copy restored after a restart (C25-2: the storage layer does not persist Expiry - C20-C22, "
                "w-storage), will messages, the inline client.",
